@@ -14,5 +14,10 @@ func main() {
 		// a constant mismatch is replayed by re-running the whole (cheap) enumeration
 	}
 	run(r)
+	// use every accessor that hands out a point and scribble over what it returned: the constants must be unaffected
+	// (an accessor that returns the shared object instead of a copy lets callers rewrite a constant)
+	abuse()
+	suffix = "/after-accessor-use"
+	run(r)
 	r.Finish()
 }
